@@ -442,7 +442,10 @@ class FileSystemStoreBackend(StoreBackendBase, StoreBackendMixin):
         items = []
 
         for dirpath, _, filenames in os.walk(self.location):
-            is_cache_hash_dir = re.fullmatch("[a-f0-9]{32}", os.path.basename(dirpath))
+            # The store's own directory may be named like an item: it is not one.
+            is_cache_hash_dir = dirpath != self.location and re.fullmatch(
+                "[a-f0-9]{32}", os.path.basename(dirpath)
+            )
 
             # A function can be named like an item: its directory holds the
             # code of the function.
